@@ -34,8 +34,43 @@ pub struct Replay {
     pub proc: Option<crate::procsim::ProcPlan>,
     #[serde(default)]
     pub minimised: bool,
+    /// which build of the harness (and of customasm inside it) executed it:
+    /// "" = release profile, "checked" = release + overflow-checks +
+    /// debug-assertions (what `cargo build` / `cargo test` users run)
+    #[serde(default)]
+    pub build: String,
     #[serde(default)]
     pub note: String,
+}
+
+/// The build this process is ("" or "checked").
+pub fn this_build() -> &'static str {
+    if cfg!(debug_assertions) {
+        "checked"
+    } else {
+        ""
+    }
+}
+
+/// The harness executable of a given build, next to the running one
+/// (`<verif>/target/{release,checked}/sim`).
+pub fn exe_for(build: &str) -> std::path::PathBuf {
+    let cur = std::env::current_exe().unwrap();
+    if build == this_build() {
+        return cur;
+    }
+    let dir = if build == "checked" { "checked" } else { "release" };
+    match cur.parent().and_then(|p| p.parent()) {
+        Some(target) => {
+            let cand = target.join(dir).join("sim");
+            if cand.exists() {
+                cand
+            } else {
+                cur
+            }
+        }
+        None => cur,
+    }
 }
 
 #[derive(Clone, Debug)]
